@@ -30,12 +30,13 @@ def compose(rng, i, with_gene):
     return h, fields
 
 
-def gen_fasta(rng, n, gene_share, with_gene=None, max_len=40):
+def gen_fasta(rng, n, gene_share, with_gene=None, max_len=40, allow_empty=True):
     """[with_gene]: the exact set of record numbers that carry a gene name (instead of the random share)"""
     lines, fields = [], []
     for i in range(n):
         h, f = compose(rng, i, (rng.random() < gene_share) if with_gene is None else (i in with_gene))
-        seq = "".join(rng.choice("ACDEFGHIKLMNPQRSTVWY") for _ in range(rng.randint(1, max_len)))
+        # (a record may have no sequence line at all: its header is followed directly by the next header or the end of the file)
+        seq = "".join(rng.choice("ACDEFGHIKLMNPQRSTVWY") for _ in range(0 if (allow_empty and rng.random() < 0.06) else rng.randint(1, max_len)))
         f["len"] = len(seq)
         fields.append(f)
         # trailing blanks / tabs at the end of header and sequence lines (files that went through a spreadsheet or a Windows editor)
@@ -212,7 +213,8 @@ def rule_consistency(r, n_files):
     from picked_group_fdr import peptide_protein_map, protein_annotation as pa
     n = 0
     for k in range(n_files):
-        text, _ = gen_fasta(r.rng, r.rng.randint(2, 6), r.rng.choice([0.0, 0.3, 1.0]))
+        # (no sequence-less records here: the in-silico digest needs non-empty sequences - assumption of C08 / C09)
+        text, _ = gen_fasta(r.rng, r.rng.randint(2, 6), r.rng.choice([0.0, 0.3, 1.0]), allow_empty=False)
         d = tempfile.mkdtemp(prefix="c19r_", dir=core.scratch())
         fasta = os.path.join(d, "db.fasta")
         open(fasta, "w").write(text)
